@@ -522,6 +522,109 @@ def forms_msp430():
         yield it(txt, code, S + 'EMU/' + txt.split()[0].upper())
 
 
+def forms_8051():
+    """MCS-51: the complete opcode map (255 opcodes, A5 is reserved), Intel MCS-51 Programmer's Guide, instruction opcodes in
+    hexadecimal order; direct/bit/immediate operands at 0, 1, 7F, 80, FF; relative branches at both limits; AJMP/ACALL
+    in the first, a middle and the last 2K page position"""
+    S = '8051/'
+    D = [0, 1, 0x30, 0x7f, 0x80, 0xff]       # direct addresses
+    I = [0, 1, 0x7f, 0x80, 0xff]             # immediates
+    B = [0, 7, 0x20, 0x7f, 0x80, 0xff]       # bit addresses
+    RI = [(0, '@r0'), (1, '@r1')]
+    RN = [(n, 'r%d' % n) for n in range(8)]
+    for mn, base in (('inc', 0x04), ('dec', 0x14)):
+        yield it('%s a' % mn, [base], S + mn.upper() + ' A')
+        for d in D:
+            if d != 0xe0:
+                yield it('%s %d' % (mn, d), [base + 1, d], S + mn.upper() + ' direct')
+        for i, t in RI:
+            yield it('%s %s' % (mn, t), [base + 2 + i], S + mn.upper() + ' @Ri')
+        for n, t in RN:
+            yield it('%s %s' % (mn, t), [base + 4 + n], S + mn.upper() + ' Rn')
+    for mn, base in (('add', 0x24), ('addc', 0x34), ('orl', 0x44), ('anl', 0x54), ('xrl', 0x64), ('subb', 0x94)):
+        for v in I:
+            yield it('%s a,#%d' % (mn, v), [base, v], S + mn.upper() + ' A,#')
+        yield it('%s a,#256' % mn, 'ERR', S + mn.upper() + ' A,#/range')
+        for d in D:
+            yield it('%s a,%d' % (mn, d), [base + 1, d], S + mn.upper() + ' A,direct')
+        for i, t in RI:
+            yield it('%s a,%s' % (mn, t), [base + 2 + i], S + mn.upper() + ' A,@Ri')
+        for n, t in RN:
+            yield it('%s a,%s' % (mn, t), [base + 4 + n], S + mn.upper() + ' A,Rn')
+    for mn, base in (('orl', 0x42), ('anl', 0x52), ('xrl', 0x62)):
+        for d in D:
+            yield it('%s %d,a' % (mn, d), [base, d], S + mn.upper() + ' direct,A')
+            for v in (0, 0xff):
+                yield it('%s %d,#%d' % (mn, d, v), [base + 1, d, v], S + mn.upper() + ' direct,#')
+    for txt, op in (('nop', 0x00), ('rr a', 0x03), ('rrc a', 0x13), ('ret', 0x22), ('rl a', 0x23), ('reti', 0x32), ('rlc a', 0x33), ('jmp @a+dptr', 0x73),
+                    ('movc a,@a+pc', 0x83), ('div ab', 0x84), ('movc a,@a+dptr', 0x93), ('inc dptr', 0xa3), ('mul ab', 0xa4), ('cpl c', 0xb3), ('clr c', 0xc3),
+                    ('swap a', 0xc4), ('setb c', 0xd3), ('da a', 0xd4), ('movx a,@dptr', 0xe0), ('movx a,@r0', 0xe2), ('movx a,@r1', 0xe3), ('clr a', 0xe4),
+                    ('movx @dptr,a', 0xf0), ('movx @r0,a', 0xf2), ('movx @r1,a', 0xf3), ('cpl a', 0xf4)):
+        yield it(txt, [op], S + txt.upper())
+    for b in B:
+        for txt, op in (('orl c,%d', 0x72), ('anl c,%d', 0x82), ('mov %d,c', 0x92), ('orl c,/%d', 0xa0), ('mov c,%d', 0xa2), ('anl c,/%d', 0xb0), ('cpl %d', 0xb2),
+                        ('clr %d', 0xc2), ('setb %d', 0xd2)):
+            yield it(txt % b, [op, b], S + (txt % 0).upper().replace('0', 'bit'))
+    yield it('setb 256', 'ERR', S + 'SETB/range')
+    for v in I:
+        yield it('mov a,#%d' % v, [0x74, v], S + 'MOV A,#')
+        for i, t in RI:
+            yield it('mov %s,#%d' % (t, v), [0x76 + i, v], S + 'MOV @Ri,#')
+        for n, t in RN[::3]:
+            yield it('mov %s,#%d' % (t, v), [0x78 + n, v], S + 'MOV Rn,#')
+        for d in D[::2]:
+            yield it('mov %d,#%d' % (d, v), [0x75, d, v], S + 'MOV direct,#')
+    for d in D:
+        for d2 in D[::2]:
+            yield it('mov %d,%d' % (d, d2), [0x85, d2, d], S + 'MOV direct,direct')        # source first in the encoding
+        for i, t in RI:
+            yield it('mov %d,%s' % (d, t), [0x86 + i, d], S + 'MOV direct,@Ri')
+            yield it('mov %s,%d' % (t, d), [0xa6 + i, d], S + 'MOV @Ri,direct')
+        for n, t in RN[::3]:
+            yield it('mov %d,%s' % (d, t), [0x88 + n, d], S + 'MOV direct,Rn')
+            yield it('mov %s,%d' % (t, d), [0xa8 + n, d], S + 'MOV Rn,direct')
+        if d != 0xe0:
+            yield it('mov a,%d' % d, [0xe5, d], S + 'MOV A,direct')
+            yield it('mov %d,a' % d, [0xf5, d], S + 'MOV direct,A')
+        yield it('push %d' % d, [0xc0, d], S + 'PUSH')
+        yield it('pop %d' % d, [0xd0, d], S + 'POP')
+        yield it('xch a,%d' % d, [0xc5, d], S + 'XCH A,direct')
+    for i, t in RI:
+        yield it('mov a,%s' % t, [0xe6 + i], S + 'MOV A,@Ri')
+        yield it('mov %s,a' % t, [0xf6 + i], S + 'MOV @Ri,A')
+        yield it('xch a,%s' % t, [0xc6 + i], S + 'XCH A,@Ri')
+        yield it('xchd a,%s' % t, [0xd6 + i], S + 'XCHD A,@Ri')
+    for n, t in RN:
+        yield it('mov a,%s' % t, [0xe8 + n], S + 'MOV A,Rn')
+        yield it('mov %s,a' % t, [0xf8 + n], S + 'MOV Rn,A')
+        yield it('xch a,%s' % t, [0xc8 + n], S + 'XCH A,Rn')
+    for v in (0, 1, 0x1234, 0xffff):
+        yield it('mov dptr,#%d' % v, [0x90, v >> 8, v & 0xff], S + 'MOV DPTR,#')
+        yield it('org 4096\n\tljmp %d' % v, [0x02, v >> 8, v & 0xff], S + 'LJMP', at=4096)
+        yield it('org 4096\n\tlcall %d' % v, [0x12, v >> 8, v & 0xff], S + 'LCALL', at=4096)
+    # relative branches: displacement counted from the address behind the instruction
+    at = 0x1000
+    for dist in (-128, -127, -1, 0, 1, 126, 127):
+        rel = dist & 0xff
+        for txt, code, ln in (('sjmp', [0x80], 2), ('jc', [0x40], 2), ('jnc', [0x50], 2), ('jz', [0x60], 2), ('jnz', [0x70], 2)):
+            yield it('org %d\n\t%s %d' % (at, txt, at + ln + dist), code + [rel], S + txt.upper(), at=at)
+        for txt, code, ln in (('jbc 32,', [0x10, 32], 3), ('jb 32,', [0x20, 32], 3), ('jnb 255,', [0x30, 255], 3), ('djnz 48,', [0xd5, 48], 3),
+                              ('cjne a,#5,', [0xb4, 5], 3), ('cjne a,48,', [0xb5, 48], 3), ('cjne @r1,#255,', [0xb7, 255], 3), ('cjne r7,#0,', [0xbf, 0], 3),
+                              ('djnz r3,', [0xdb], 2)):
+            yield it('org %d\n\t%s%d' % (at, txt, at + ln + dist), code + [rel], S + txt.split()[0].upper() + '/rel', at=at)
+    for dist in (-129, 128):
+        yield it('org %d\n\tsjmp %d' % (at, at + 2 + dist), 'ERR', S + 'SJMP/range', at=at)
+        yield it('org %d\n\tdjnz r3,%d' % (at, at + 2 + dist), 'ERR', S + 'DJNZ/range', at=at)
+    # absolute 11-bit jumps/calls: target in the 2K page of the FOLLOWING instruction
+    for pc in (0x0000, 0x07fd, 0x07fe, 0x0800, 0x17fe):
+        page = (pc + 2) & 0xf800
+        for off in (0, 1, 0x2ff, 0x7ff):
+            t = page | off
+            yield it('org %d\n\tajmp %d' % (pc, t), [0x01 | (off >> 8) << 5, off & 0xff], S + 'AJMP', at=pc)
+            yield it('org %d\n\tacall %d' % (pc, t), [0x11 | (off >> 8) << 5, off & 0xff], S + 'ACALL', at=pc)
+        yield it('org %d\n\tajmp %d' % (pc, (page + 0x800) & 0xffff), 'ERR', S + 'AJMP/page', at=pc)
+
+
 ISAS = {
     '6502': dict(cpu='6502', gen=forms_6502, slot=8),
     '8080': dict(cpu='8080', gen=forms_8080, slot=8),
@@ -532,4 +635,5 @@ ISAS = {
     'avr': dict(cpu='at90s8515', gen=forms_avr, slot=4, pre=['p%d\tport %d' % (a, a) for a in (0, 31, 32, 57, 63)]),
     'msp430-jumps': dict(cpu='msp430', gen=forms_msp430_jumps, slot=4),
     'msp430': dict(cpu='msp430', gen=forms_msp430, slot=8),
+    '8051': dict(cpu='8051', gen=forms_8051, slot=4),
 }
